@@ -320,7 +320,14 @@ func (srv *Session) handleSimpleQuery(ctx context.Context, reader *buffer.Reader
 			return ErrorCode(writer, err)
 		}
 
-		err = statements[index].fn(ctx, NewDataWriter(ctx, statements[index].columns, nil, reader, writer), nil)
+		dw := NewDataWriter(ctx, statements[index].columns, nil, reader, writer)
+		err = statements[index].fn(ctx, dw, nil)
+		if err == nil {
+			// NOTE: an aborted copy-in operation fails the command, even if
+			// the handler did not return the error it received.
+			err = copyError(dw)
+		}
+
 		if err != nil {
 			return ErrorCode(writer, err)
 		}
